@@ -2283,6 +2283,10 @@ func (lexer *Lexer) tryToDecodeEscapeSequences(start int, text string, reportErr
 
 				// Forbid the use of octal literals other than "\0"
 				if isBad || text[octalStart:i] != "\\0" {
+					// These aren't escape sequences in a template literal
+					if !reportErrors {
+						return nil, false, start + octalStart
+					}
 					lexer.LegacyOctalLoc = logger.Loc{Start: int32(start + octalStart)}
 				}
 
@@ -2290,6 +2294,9 @@ func (lexer *Lexer) tryToDecodeEscapeSequences(start int, text string, reportErr
 				c = c2
 
 				// Forbid the invalid octal literals "\8" and "\9"
+				if !reportErrors {
+					return nil, false, start + i - 2
+				}
 				lexer.LegacyOctalLoc = logger.Loc{Start: int32(start + i - 2)}
 
 			case 'x':
@@ -2360,7 +2367,10 @@ func (lexer *Lexer) tryToDecodeEscapeSequences(start int, text string, reportErr
 						isFirst = false
 					}
 
-					if isOutOfRange && reportErrors {
+					if isOutOfRange {
+						if !reportErrors {
+							return nil, false, start + hexStart
+						}
 						lexer.addRangeError(logger.Range{Loc: logger.Loc{Start: int32(start + hexStart)}, Len: int32(i - hexStart)},
 							"Unicode escape sequence is out of range")
 						panic(LexerPanic{})
